@@ -374,10 +374,7 @@ impl Family for TallyFamily {
     }
     fn props(&self) -> Vec<PropSpec> {
         vec![PropSpec {
-            id: "C04",
-            quick_cases: 1_000_000,
-            thorough_cases: 8_000_000,
-            floor: 100_000,
+            id: "C04", quick_cases: 3000000, thorough_cases: 8_000_000, floor: 300000,
             rule: "case = (threshold of one of the three kinds valid for the total, total weight from {0..12, 13..1e4, near 2^32, near 2^64-1, uniform u64}, a split into yes/no/abstain/veto/unvoted built from fractions or placed at a yes / no / quorum decision boundary +-2, block before / exactly at / after expiry); percentages with <= 9 decimals are compared exactly, 18-decimal ones within one vote and never stricter; for totals <= 12 every completion of the outstanding votes is enumerated (and the closed forms used for large totals are cross-checked against the enumeration). Non-trivial: tally within +-1 of a decision boundary, or total >= 2^32, or an abstain with base <= 2; distinct = distinct canonical JSON.",
             assumptions: &["Decimal / Uint128 arithmetic of cosmwasm-std is trusted", "Threshold::validate bounds (percentage in [0.5,1], quorum in (0,1], 1 <= count <= total) define the domain"],
         }]
